@@ -148,8 +148,10 @@ PROPS['C21'] = lower_prop('Block alternate replaces exactly the selected constru
     'Lean 4 proof (local step) + kernel-decided instances + differential correspondence check')
 PROPS['C22'] = lower_prop('Special-mode injections are never silently lost', ['Orca/Props/C22.lean'],
     'Lean 4 theorems: every injection path either marks the function for special resolution or rejects the call (inject, inject_at, function-level, empty block alt; non-applicable '
-    'opcodes rejected); the model of the resolution is compared with the code on every case and the oracle requires every accepted probe id in the output; one known finding (F15).',
-    'Lean 4 proof + differential correspondence check')
+    'opcodes rejected); the model of the resolution is compared with the code on every case and the oracle requires every accepted probe id in the output; one known finding (F15). '
+    'The edit family adds function-exit code injected among additions, deletions and conversions of functions and imports (the resolution loop must reach every local function: F35).',
+    'Lean 4 proof + differential correspondence check',
+    extra_families=[{'name': 'edit', 'quick_n': 1500, 'thorough_n': 100000, 'keys': ['inv']}])
 
 PROPS['C24'] = {
     'title': 'Opcode helpers emit exactly the named instruction',
@@ -350,6 +352,8 @@ PROPS['C17'] = sem_prop('Function entry/exit probes fire once per call on every 
     'Lean 4 theorem lowerF_sim: entry probes, wrapper block, exit probes and the copies in front of return / unreachable reproduce the monitored activation exactly (fall-through, return, branch to the function label from any depth, unreachable), results unchanged; '
     'for all bodies without semantic-after on branches. Tied to the code by the sem family.',
     'Lean 4 proof (function-level simulation) + differential correspondence and execution in the Lean interpreter', with_lower=True)
+PROPS['C17']['families'].append({'name': 'edit', 'quick_n': 1000, 'thorough_n': 50000, 'keys': ['inv']})
+PROPS['C17']['rule'] += ' Also the edit family: function-exit code injected into functions among additions, deletions and conversions of functions and imports must reach the encoded function (F35).'
 PROPS['C18'] = sem_prop('Block entry probes fire on every entry into the block', ['Orca/Props/C18.lean'],
     'Lean 4 theorem: the lowered program reproduces the monitored trace, in which entry probes fire at every entry of a block / loop iteration / if arm and nowhere else; all programs without semantic-after on branches.',
     'Lean 4 proof (simulation by induction on fuel) + differential correspondence and execution in the Lean interpreter', with_lower=True)
